@@ -595,4 +595,78 @@ def run_x07(ctx: Ctx):
             ctx.violation(key, desc, c)
 
 
-EXTRAS = {'X07': run_x07, 'X01': run_x01, 'X02': run_x02, 'X03': run_x03, 'X04': run_x04, 'X05': run_x05, 'X06': run_x06}
+def _weather_driver():
+    """The harness's own driver: WeatherCache histories (incl. days without a file, repeated) run on one real Weather
+    object each under the recorder -> traces."""
+    import pandas as pd
+
+    from . import plugin
+    from .c16 import _cache_dir
+
+    from AEIC.trajectories.ground_track import GroundTrack
+    from AEIC.types import Location
+    from AEIC.utils.standard_atmosphere import altitude_from_pressure_isa_bada4
+    from AEIC.weather import Weather
+
+    plugin.install(['weather'])
+    pt = GroundTrack.Point(Location(longitude=-74.5, latitude=40.5), 90.0)
+    alt = float(altitude_from_pressure_isa_bada4(np.array([250.0 * 100.0]))[0])
+    seqs = [[(1, 6), (1, 6), (1, 18), (2, 18), (2, 6), (3, 6), (3, 18), (1, 18)],
+            [(3, 6), (4, 6), (4, 6), (1, 6), (4, 12), (2, 12), (2, 12), (3, 12)],
+            [(2, 18), (1, 18), (2, 18), (4, 18), (4, 18), (3, 6), (1, 6)]]
+    out = []
+    for si, seq in enumerate(seqs):
+        plugin.start(f'driver-{si}')
+        w = Weather(data_dir=_cache_dir())
+        for d, h in seq:
+            try:
+                w.get_ground_speed(time=pd.Timestamp(f'2024-09-0{d}T{h:02d}:{(7 * d + h) % 60:02d}:00', tz='UTC'), gt_point=pt, altitude=alt, true_airspeed=0.0, azimuth=90.0)
+            except (FileNotFoundError, ValueError):
+                pass
+        cur = plugin.stop()
+        out.append({'t': f'driver-{si}', 'ev': cur.get('weather', [])})
+        if w._main_ds is not None:
+            w._main_ds.close()
+    return out
+
+
+def run_x08(ctx: Ctx):
+    """code -> spec for the Weather cache: recorded executions validated by TLC against WeatherTrace.tla."""
+    import copy
+
+    from .c18 import record_repo_tests
+    from .store_replay import fresh_map
+
+    ctx.rule = 'every get_ground_speed call of tests/test_weather.py, of the two weather flights of tests/test_trajectory_simulation.py and of three driver histories (days with / without a time axis / without a file, repeated requests) as events of WeatherCache.tla, per Weather object; consecutive identical events are merged (stuttering)'
+    ctx.assumptions += ['not a listed property: specification growth (DESIGN.md section 10)', 'the projected cache state (open day, sliced hour) is read from the object after each call by the recorder']
+    got = record_repo_tests(['tests/test_weather.py', 'tests/test_trajectory_simulation.py::test_trajectory_simulation_weather', 'tests/test_trajectory_simulation.py::test_trajectory_simulation_outside_weather_domain'], 'weather')
+    recs = list(got.get('weather', [])) + fresh_map(lambda _: _weather_driver(), [0])[0]
+    traces = []
+    for t in recs:
+        by = {}
+        for e in t['ev']:
+            if e['op'] == 'recorder-error':
+                raise MachineryError(f'weather recorder failed in {t["t"]}: {e["msg"]}')
+            by.setdefault(e['obj'], []).append({k: v for k, v in e.items() if k != 'obj'})
+        for k, evs in by.items():
+            merged = [e for i, e in enumerate(evs) if i == 0 or e != evs[i - 1]]
+            traces.append({'t': f'{t["t"]}|weather-object-{k}', 'ev': merged[:300]})
+    ctx.log(f'weather: {len(traces)} traces, {sum(len(t["ev"]) for t in traces)} events')
+    rej = tlc.validate_traces(ctx, 'geo/WeatherTrace', 'geo/WeatherTrace.cfg', traces)
+    for r in rej:
+        t = next(x for x in traces if x['t'] == r['t'])
+        ctx.violation('weather-trace:rejected', f'recorded execution {r["t"]} is not a behaviour of WeatherCache.tla: event {r["matched"] + 1} of {r["total"]} ({t["ev"][r["matched"]] if r["matched"] < len(t["ev"]) else None}) after {t["ev"][max(0, r["matched"] - 2):r["matched"]]}', {'trace': t})
+    for t in traces:
+        ctx.case_done(('weather-trace', t['t']), nontrivial=len(t['ev']) > 1)
+    ctx.traces_validated += len(traces)
+    # the binding is live: a trace with one projected field falsified must be rejected
+    long = max(traces, key=lambda t: len(t['ev']))
+    bad = copy.deepcopy(long)
+    bad['t'] += '|falsified'
+    bad['ev'][-1]['uh'] = (bad['ev'][-1]['uh'] + 1) % 24
+    if not tlc.validate_traces(ctx, 'geo/WeatherTrace', 'geo/WeatherTrace.cfg', [bad]):
+        raise MachineryError('negative control failed: a weather trace with a falsified sliced hour was accepted')
+    ctx.extra['negative_control'] = 'a recorded trace whose last sliced hour is falsified is rejected'
+
+
+EXTRAS = {'X08': run_x08, 'X07': run_x07, 'X01': run_x01, 'X02': run_x02, 'X03': run_x03, 'X04': run_x04, 'X05': run_x05, 'X06': run_x06}
